@@ -51,4 +51,36 @@ def decideWith (v : Variant) (cfg : Cfg) (allowed : List (List Char)) (r : CGReq
 
 def decide := decideWith fixed
 
+/-! ### the statement's own rule, with no regenerated table: what the check's judge applies -/
+
+/-- the factor bit each operator setting stands for (specification side; bit values from Gen.Consts) -/
+def factorBit (pref : List Char) : Option Nat :=
+  if pref == protoAuthTypeU2F.toList then some authTypeU2F
+  else if pref == protoAuthTypeTOTP.toList then some authTypeTOTP
+  else if pref == protoAuthTypeSymantecVIP.toList then some authTypeSymantecVIP
+  else if pref == protoAuthTypeIPCertificate.toList then some authTypeIPCertificate
+  else if pref == protoAuthTypeOkta2FA.toList then some authTypeOkta2FA
+  else if pref == protoAuthTypeWebauthForCLI.toList then some authTypeWebauthForCLI
+  else Option.none
+
+/-- password listed, or the U2F bit, or a listed second factor whose bit the session carries -/
+def specSufficientB (allowed : List (List Char)) (level : Nat) : Bool :=
+  allowed.contains protoAuthTypePassword.toList || hasAll level authTypeU2F ||
+  allowed.any (fun f => match factorBit f with
+    | some b => hasAll level b
+    | Option.none => false)
+
+def specDecide (cfg : Cfg) (allowed : List (List Char)) (r : CGReq) : Outcome :=
+  if r.sealed then .refused 500
+  else match checkAuthWith fixed cfg r.req authTypeAny with
+    | .fail s => .refused s
+    | .silent => .noResponse
+    | .ok info =>
+      if !specSufficientB allowed info.authType then .refused 401
+      else if info.user != r.target then .refused 403
+      else if r.req.method != .post then .refused 405
+      else match r.post with
+        | .ok => .issued info.user
+        | .refused s => .refused s
+
 end KM.CertGen
